@@ -66,6 +66,33 @@ def _json_ok(types):
     return obj() and pos[0] == len(types)
 
 
+_JT = {"JSON_TRUE": "true", "JSON_FALSE": "false", "JSON_OPEN": "{", "JSON_OPEN_2": "{", "JSON_CLOSE": "}", "JSON_ARRAY_LEFT": "[",
+       "JSON_ARRAY_RIGHT": "]", "JSON_COMMA": ",", "JSON_COLON": ":"}
+
+
+def _jtok(ty, tx):
+    if ty == "JSON_STRING":
+        return {"j": "str", "s": tx}
+    if ty == "NUMBER":
+        return {"j": "num", "s": tx}
+    if ty not in _JT:
+        raise KeyError(ty)  # a token that no rule of the JSON sub-grammar mentions (JSON_QUOTE)
+    return {"j": _JT[ty]}
+
+
+def _jv(j):
+    """the model's JSON value as the Python value json.loads gives for the text"""
+    if isinstance(j, bool):
+        return j
+    if "s" in j:
+        return json.loads(j["s"], strict=False)
+    if "n" in j:
+        return json.loads(j["n"])
+    if "o" in j:
+        return {json.loads(k, strict=False): _jv(v) for k, v in j["o"]}
+    return [_jv(v) for v in j["a"]]
+
+
 def _atom_ok(types):
     """the token types of one operand against `value` of PFDLParser.g4"""
     if types in (["TRUE"], ["FALSE"], ["STRING"], ["INTEGER"], ["FLOAT"], ["MINUS", "INTEGER"], ["MINUS", "FLOAT"]):
@@ -178,9 +205,12 @@ def syntax_tokens(text):
                     if depth == 0:
                         break
                 i += 1
-            if depth != 0 or not _json_ok(jtypes):
-                return None  # the JSON sub-grammar is not part of the model
-            out.append({"t": "json", "s": "".join(parts), "l": ln})
+            if depth != 0:
+                return None  # an unclosed literal swallows the rest of the text
+            try:
+                out.append({"t": "json", "l": ln, "toks": [_jtok(a, b) for a, b in zip(jtypes, parts)]})
+            except KeyError:
+                return None
         else:
             return None
         i += 1
@@ -307,7 +337,7 @@ def model_syntax(resp):
 
     def param(p):
         if isinstance(p, dict):
-            return {"lit": p["lit"], "json": json.loads(p["json"])}
+            return {"lit": p["lit"], "json": _jv(p["json"])}
         return p
 
     def call(c):
